@@ -77,9 +77,15 @@ Section FindEps.
              then find_loop f a (eps * Rpower 2 a)
              else Some eps
     end.
+  (* find_reasonable_epsilon as written: the first leapfrog is taken with step size 1; its log acceptance
+     probability lap 1 decides the direction a AND is the value of the first loop test, while `epsilon` has
+     already been set to 0.5 (= half * k * epsilon with k = 1 when that first step is finite); every later
+     test uses lap at the current epsilon. *)
   Definition find_eps (fuel : nat) : option R :=
-    let e0 := (1 / 2)%R in                 (* epsilon = 0.5 * k * 1 with k = 1 *)
-    find_loop fuel (direction e0) e0.
+    let a := direction 1 in
+    if Rlt_dec (- a * ln 2) (a * lap 1)
+    then find_loop fuel a (1 / 2 * Rpower 2 a)
+    else Some (1 / 2)%R.
 End FindEps.
 
 (* ---- evaluation in interval arithmetic ---- *)
